@@ -11,6 +11,27 @@ MCDRV = os.path.join(LEAN, ".lake", "build", "bin", "mcdrv")
 ALLOWED_AXIOMS = {"propext", "Classical.choice", "Quot.sound"}
 FORBIDDEN = re.compile(r"\bsorry\b|\badmit\b|^\s*axiom\s|native_decide|bv_decide|implemented_by|\bunsafe\s|maxHeartbeats\s+0\b", re.M)
 ENV = dict(os.environ, CARGO_NET_OFFLINE="true")
+# Development aid only (seeded-change experiments without touching /repo): VERIF_REPO=<worktree> makes every
+# cargo build use that checkout instead of /repo (cargo `paths` override) and a separate target dir.
+# The registered checks never set it.
+REPO_OVERRIDE = os.environ.get("VERIF_REPO")
+
+
+def cargo_extra_args(default_target=None):
+    """extra cargo arguments implementing VERIF_REPO; `default_target` is the target dir otherwise used."""
+    if not REPO_OVERRIDE:
+        return ["--target-dir", default_target] if default_target else []
+    tag = hashlib.sha1(REPO_OVERRIDE.encode()).hexdigest()[:8]
+    crates = ["minicbor", "minicbor-derive", "minicbor-io", "minicbor-serde"]
+    paths = ",".join('"%s/%s"' % (REPO_OVERRIDE, c) for c in crates)
+    tdir = (default_target or os.path.join(HARNESS, "target")) + "-override-" + tag
+    return ["--config", f"paths=[{paths}]", "--target-dir", tdir]
+
+
+def target_dir(default_target):
+    if not REPO_OVERRIDE:
+        return default_target
+    return default_target + "-override-" + hashlib.sha1(REPO_OVERRIDE.encode()).hexdigest()[:8]
 
 TRUSTED_BASE = [
     "Lean 4.33.0 kernel (leanchecker re-check in the thorough tier)",
@@ -61,16 +82,30 @@ def strip_comments(src):
     return "".join(out)
 
 
-def forbidden_tokens():
-    hits = []
-    for d, _, fs in os.walk(LEAN):
-        if ".lake" in d:
+def import_closure(modules):
+    """Lean source files reachable through `import Minicbor…` / `import Main` from the given modules."""
+    seen, todo = {}, list(modules)
+    while todo:
+        m = todo.pop()
+        if m in seen:
             continue
-        for f in fs:
-            if f.endswith(".lean"):
-                p = os.path.join(d, f)
-                for m in FORBIDDEN.finditer(strip_comments(open(p).read())):
-                    hits.append(f"{os.path.relpath(p, LEAN)}: {m.group(0).strip()}")
+        path = os.path.join(LEAN, *m.split(".")) + ".lean"
+        if not os.path.exists(path):
+            continue
+        src = open(path).read()
+        seen[m] = (path, src)
+        for im in re.findall(r"^\s*import\s+([A-Za-z0-9_.]+)", src, re.M):
+            if im.startswith("Minicbor") or im == "Main":
+                todo.append(im)
+    return seen
+
+
+def forbidden_tokens(modules):
+    """sorry / axiom / native_decide … in any source file the property's theorems or the driver depend on."""
+    hits = []
+    for m, (p, src) in sorted(import_closure(list(modules) + ["Main"]).items()):
+        for mt in FORBIDDEN.finditer(strip_comments(src)):
+            hits.append(f"{os.path.relpath(p, LEAN)}: {mt.group(0).strip()}")
     return hits
 
 
@@ -112,7 +147,7 @@ def cargo_build(packages):
         lock = os.path.join(HARNESS, "Cargo.lock")
         if not os.path.exists(lock):
             import shutil; shutil.copy("/repo/Cargo.lock", lock)
-        cmd = ["cargo", "build", "--release", "--offline"]
+        cmd = ["cargo", "build", "--release", "--offline"] + cargo_extra_args()
         for p in packages:
             cmd += ["-p", p]
         rc, out = sh(cmd, cwd=HARNESS, timeout=3600)
@@ -122,7 +157,7 @@ def cargo_build(packages):
 def harness_bin(name):
     if name.startswith("/"):
         return name
-    return os.path.join(HARNESS, "target", "release", name)
+    return os.path.join(target_dir(os.path.join(HARNESS, "target")), "release", name)
 
 
 def run_lines(binary, lines, extra_args=(), timeout=3600):
@@ -307,7 +342,7 @@ def check(pid, tier, seed, replay=None):
         # find which modules still build, to name the broken obligations precisely
         res = {t: (False, "theorem module does not build") for t in theorems}
         aout = out
-    hits = forbidden_tokens()
+    hits = forbidden_tokens(mod.THM_MODULES)
     discharged = sum(1 for t in theorems if res[t][0]) if not hits else 0
     failed = [t for t in theorems if not res[t][0]]
     if hits:
@@ -361,6 +396,10 @@ def check(pid, tier, seed, replay=None):
             if st.nontrivial(op, i):
                 nontriv.add(hash((st.name, op)))
             v = st.judge(op, i, m, s)
+            if v == "corr" and (i.startswith("ok ") or m.startswith("ok ")):
+                # model and code disagree on a successful decode (value / position) or on whether there is one:
+                # that is an observable every property constrains, so the op is a failing input, not a mere mismatch
+                v = "violation"
             if v != "ok":
                 bad.setdefault(v if isinstance(v, str) else v, []).append(idx)
         if n:
